@@ -151,7 +151,8 @@ func handleDemonAgent(Teamserver agent.TeamServer, Header agent.Header, External
 
 					case agent.COMMAND_PIVOT:
 
-						if job[j].Data[0] == agent.DEMON_PIVOT_SMB_COMMAND {
+						// only the wrapped jobs built by PivotAddJob carry (sub-command, agent id, frame)
+						if len(job[j].Data) >= 3 && job[j].Data[0] == agent.DEMON_PIVOT_SMB_COMMAND {
 
 							var (
 								TaskBuffer    = job[j].Data[2].([]byte)
